@@ -48,15 +48,23 @@ class _Stub:
         return None
 
 
-def feed_protocol(stream, cuts):
+def feed_protocol(stream, cuts, loss_at=None):
+    """loss_at: byte position at which the connection is lost (without error) and made again before the rest arrives."""
     from mysensors.transport import BaseMySensorsProtocol
     gw = _Stub()
     proto = BaseMySensorsProtocol(gw, lambda: None)
+    conn = type("Conn", (), {"close": lambda self: None})()
+    conn.serial = conn
+    proto.connection_made(conn)
     pos = 0
-    for c in list(cuts) + [len(stream)]:
+    marks = sorted(set(list(cuts) + [len(stream)] + ([loss_at] if loss_at is not None else [])))
+    for c in marks:
         if c > pos:
             proto.data_received(stream[pos:c])
             pos = c
+        if loss_at is not None and c == loss_at:
+            proto.connection_lost(None)
+            proto.connection_made(conn)
     return gw.lines
 
 
@@ -171,6 +179,14 @@ def framing_records(tier, rng):
         for cuts in cutsets[:3]:
             obs = feed_tcp(stream, cuts)
             F.append([classes(stream), [lid(x) for x in obs], [lid(x) for x in ref]])
+        if n >= 3:
+            # the connection is lost and made again somewhere in the stream (in the middle of a line, at a line end): the
+            # lines are still those of the bytes received, whatever the chunks
+            lf = [i for i in range(1, n) if stream[i] == 10]
+            for loss in {rng.randrange(1, n), (lf[0] if lf else 1), (lf[0] + 1 if lf and lf[0] + 1 < n else 1), max(1, n - 2)}:
+                for cuts in (cutsets[:3] + cutsets[-2:]):
+                    obs = feed_protocol(stream, cuts, loss_at=loss)
+                    F.append([classes(stream), [lid(x) for x in obs], [lid(x) for x in ref]])
     return F
 
 
